@@ -301,6 +301,35 @@ pub fn generate(prop: NetProp, seed: u64, tier: Tier) -> Case<NetCfg, NetOp> {
             g.time();
         }
     }
+    // early loss: the first data datagrams of the session are lost and come back one second later as a
+    // retransmission burst split over several datagrams, which overtake each other
+    if prop != NetProp::C03 && op_profile != 5 && op_profile != 6 && g.s.chance(1, 8) {
+        let ep = if g.s.chance(3, 4) { 0u8 } else { 1 };
+        if ep == 1 {
+            g.send(0);
+            g.ops.push(NetOp::Flush { ep: 0 });
+            g.pump(1);
+        }
+        let k = g.s.range(2, 6);
+        for i in 0..k {
+            let len = g.s.range(200, 1000).min(g.max_len as u64) as u32;
+            let fill = g.s.below(4) as u8;
+            let tag = g.tag();
+            g.ops.push(NetOp::Send { ep, vital: true, len, fill, tag });
+            g.ops.push(NetOp::Flush { ep });
+            if i == 0 || g.s.chance(3, 4) {
+                g.ops.push(NetOp::Drop { dir: ep, pick: -1 });
+            }
+        }
+        let usec = 1_000_000 + g.s.range(0, 400_000);
+        g.ops.push(NetOp::Advance { ep: 2, usec });
+        g.ops.push(NetOp::Tick { ep });
+        for _ in 0..k + 2 {
+            let pick = if g.s.chance(2, 3) { -1 } else { g.s.below(4) as i32 };
+            g.ops.push(NetOp::Deliver { dir: ep, pick });
+        }
+        g.pump(2);
+    } else
     // A announces itself so that B comes online (a client's first message)
     if g.s.chance(9, 10) {
         g.send(0);
